@@ -887,6 +887,11 @@ func (p *Parser) parsePrimaryExpression() (ast.Expression, error) {
 
 		// NOT followed by other expression (boolean negation)
 		// Parse at comparison level for proper precedence: NOT (a > b), NOT active
+		p.depth++
+		defer func() { p.depth-- }()
+		if p.depth > MaxRecursionDepth {
+			return nil, goerrors.RecursionDepthLimitError(p.depth, MaxRecursionDepth, p.currentLocation(), "")
+		}
 		expr, err := p.parseComparisonExpression()
 		if err != nil {
 			return nil, err
